@@ -1,3 +1,1113 @@
-//! C19 — not built yet.
-use crate::run::Run;
-pub fn run(_run: &Run) { eprintln!("C19: check not built yet"); std::process::exit(2); }
+//! C19 — glyph widths and Unicode maps follow the font dictionaries exactly.
+//!
+//! (a) composite fonts: /W arrays (random permutations of disjoint non-empty groups, both forms) + /DW,
+//!     loaded through the real reader (mkpdf document → page resources → Type0 font → `widths`) and
+//!     additionally built from the public struct fields; oracle: `Widths::get(c)` for EVERY code
+//!     0..=65535 and a few beyond equals the model (array value, default elsewhere).
+//! (b) simple fonts: /FirstChar /LastChar /Widths (+ optional FontDescriptor /MissingWidth).
+//! (c) `write_cmap(map)` → stream → `Font::to_unicode` reads back the same map.
+//! (d) conformant ToUnicode CMap texts from an independent generator → `Font::to_unicode` equals the
+//!     map the specification defines (decided by refimpl::c19_ref::parse_tounicode and the generator's
+//!     own bookkeeping, which must agree — otherwise the case is inconclusive).
+//!
+//! Every case is drawn from a choice tape. The generators keep a fixed number of draws per record
+//! (group / item; texts and widths inside a record are a hash of a seed draw) so that the minimiser
+//! can delete, zero and lower draws without shifting the meaning of the rest of the tape. Failing
+//! cases are minimised on the real code (label knock-out + tape shrinking, same outcome class) and the
+//! signature is `C19|<part>|<label set of the minimised case>|<outcome class>`; other failing cases
+//! are attributed to a signature already found when they contain its labels and still fail that way
+//! with every other optional feature switched off, otherwise they are minimised themselves.
+use crate::doc::CFGS;
+use crate::mkpdf::{self, arr, dict, name, rf, simple_doc, st, Obj};
+use crate::panicmon::guard;
+use crate::par::par_for;
+use crate::refimpl::c19_ref as reference;
+use crate::rng::{fnv, Rng};
+use crate::run::{show, Run};
+use crate::tape::{shrink, Src};
+use crate::with_file;
+use pdf::font::{write_cmap, CIDFont, Font, FontData, FontDescriptor, FontType, TFont, ToUnicodeMap, Type0Font, Widths};
+use pdf::object::{MaybeRef, NoResolve, PlainRef, RcRef, Rectangle, Stream};
+use pdf::primitive::{Dictionary, Name, PdfString, Primitive};
+use serde_json::{json, Value};
+use std::collections::BTreeMap;
+use std::sync::{Arc, Mutex};
+
+// ---------------------------------------------------------------------------------------------
+// driver: evaluate n tape-generated cases; minimise failing ones (tape + label knock-out)
+// ---------------------------------------------------------------------------------------------
+
+enum Verdict { Ok, Fail { class: String, what: String }, Inconclusive(String) }
+
+struct Eval {
+    verdict: Verdict,
+    labels: String,
+    hash: u64,
+    nontrivial: bool,
+    feats: Vec<String>,
+    witness: Value,
+}
+
+/// Choice source of the generators: the tape plus a set of *suppressed* labels. A labelled
+/// alternative whose label is suppressed falls back to the plain alternative (the draw is still
+/// consumed, so the rest of the tape keeps its meaning). Used to find a 1-minimal label set.
+struct Gen { s: Src, sup: Vec<String> }
+impl Gen {
+    fn new(s: Src, sup: &[String]) -> Gen { Gen { s, sup: sup.to_vec() } }
+    fn draw(&mut self, n: u32) -> u32 { self.s.draw(n) }
+    fn pick_w(&mut self, w0: u32, n_other: u32) -> u32 { self.s.pick_w(w0, n_other) }
+    fn pick<'a, T>(&mut self, xs: &'a [T]) -> &'a T { self.s.pick(xs) }
+    fn alt(&mut self, w0: u32, opts: &[&'static str]) -> usize {
+        let i = self.s.pick_w(w0, opts.len() as u32 - 1) as usize;
+        if i == 0 || self.sup.iter().any(|x| x == opts[i]) { return 0; }
+        self.s.labels.push(opts[i]);
+        i
+    }
+    /// like `alt` but the caller records the label (only if the alternative ends up being used)
+    fn alt_silent(&mut self, w0: u32, opts: &[&'static str]) -> usize {
+        let i = self.s.pick_w(w0, opts.len() as u32 - 1) as usize;
+        if i == 0 || self.sup.iter().any(|x| x == opts[i]) { 0 } else { i }
+    }
+    fn label(&mut self, l: &'static str) { self.s.labels.push(l); }
+}
+
+fn label_str(src: &Gen) -> String { let l = src.s.label_set(); if l.is_empty() { "-".into() } else { l } }
+fn split_labels(l: &str) -> Vec<String> { if l == "-" { vec![] } else { l.split('+').map(|x| x.to_string()).collect() } }
+
+/// Coarse-to-fine tape minimiser (tapes of the big cases have thousands of draws, so the chunk sizes
+/// start at half the tape): truncation, chunk deletion, span zeroing, then the generic fine shrinker.
+fn shrink_hard(tape: &[u32], fails: &dyn Fn(&[u32]) -> bool, budget: usize) -> Vec<u32> {
+    let mut cur = tape.to_vec();
+    let calls = std::cell::Cell::new(0usize);
+    let try_it = |cand: &[u32]| -> bool { if calls.get() >= budget { return false; } calls.set(calls.get() + 1); fails(cand) };
+    for _round in 0..4 {
+        let before = cur.clone();
+        // truncation (a replayed tape answers 0 = plainest after its end)
+        let mut n = (cur.len() / 2).max(1);
+        loop {
+            while cur.len() >= n && n > 0 { let cand = cur[..cur.len() - n].to_vec(); if try_it(&cand) { cur = cand; } else { break; } }
+            if n <= 1 { break; }
+            n /= 2;
+        }
+        // chunk deletion at aligned offsets, chunk sizes = powers of two (the generators use records of 8 or 16 draws)
+        let mut k = (cur.len() / 2).max(1).next_power_of_two();
+        loop {
+            let mut i = 0;
+            while i + k <= cur.len() {
+                let mut cand = cur.clone();
+                cand.drain(i..i + k);
+                if try_it(&cand) { cur = cand; } else { i += k; }
+            }
+            if k <= 1 { break; }
+            k /= 2;
+        }
+        // span zeroing, halving span sizes
+        let mut k = (cur.len() / 2).max(1).next_power_of_two();
+        loop {
+            let mut i = 0;
+            while i < cur.len() {
+                let end = (i + k).min(cur.len());
+                if cur[i..end].iter().any(|v| *v != 0) {
+                    let mut cand = cur.clone();
+                    for v in &mut cand[i..end] { *v = 0; }
+                    if try_it(&cand) { cur = cand; }
+                }
+                i = end;
+            }
+            if k <= 1 { break; }
+            k /= 2;
+        }
+        // value descent: 0, 1, then bisection towards the smallest value that still fails
+        for i in 0..cur.len() {
+            if cur[i] == 0 { continue; }
+            let mut cand = cur.clone(); cand[i] = 0;
+            if try_it(&cand) { cur = cand; continue; }
+            if cur[i] == 1 { continue; }
+            cand = cur.clone(); cand[i] = 1;
+            if try_it(&cand) { cur = cand; continue; }
+            let (mut lo, mut hi) = (1u32, cur[i]);
+            while hi - lo > 1 {
+                let mid = lo + (hi - lo) / 2;
+                cand = cur.clone(); cand[i] = mid;
+                if try_it(&cand) { hi = mid; cur = cand; } else { lo = mid; }
+            }
+        }
+        while cur.last() == Some(&0) { cur.pop(); }
+        if cur == before || calls.get() >= budget { break; }
+    }
+    shrink(&cur, |t| fails(t), budget.min(800))
+}
+
+type CaseFn = dyn Fn(&mut Gen, u64) -> Eval + Sync;
+
+fn replay(f: &CaseFn, tape: &[u32], sup: &[String], idx: u64) -> Eval {
+    let mut g = Gen::new(Src::replay(tape), sup);
+    f(&mut g, idx)
+}
+fn fails_as(ev: &Eval, class: &str) -> bool { matches!(ev.verdict, Verdict::Fail { class: ref c, .. } if c == class) }
+
+/// tape shrinking and label knock-out until neither improves; returns (tape, suppressed labels)
+fn minimise(f: &CaseFn, tape: &[u32], idx: u64, class: &str) -> (Vec<u32>, Vec<String>) {
+    let mut tape = tape.to_vec();
+    let mut sup: Vec<String> = Vec::new();
+    for _ in 0..3 {
+        let before = (tape.clone(), sup.clone());
+        // knock out labels one at a time
+        loop {
+            let cur = split_labels(&replay(f, &tape, &sup, idx).labels);
+            let mut progressed = false;
+            for l in cur {
+                if sup.contains(&l) { continue; }
+                let mut cand = sup.clone(); cand.push(l);
+                let ev = replay(f, &tape, &cand, idx);
+                // (labels that follow from the structure of the case cannot be knocked out; the tape minimiser removes those)
+                if fails_as(&ev, class) && !split_labels(&ev.labels).contains(cand.last().unwrap()) { sup = cand; progressed = true; break; }
+            }
+            if !progressed { break; }
+        }
+        let s2 = sup.clone();
+        tape = shrink_hard(&tape, &|t: &[u32]| fails_as(&replay(f, t, &s2, idx), class), 2500);
+        if before == (tape.clone(), sup.clone()) { break; }
+    }
+    (tape, sup)
+}
+
+fn drive(run: &Run, part: &str, stream: u64, n: u64, f: &CaseFn) {
+    // (the tape of a failing case is not kept: it is regenerated from the seed when needed)
+    struct Failing { idx: u64, class: String, labels: String }
+    let failing: Mutex<Vec<Failing>> = Mutex::new(Vec::new());
+    par_for(n, |i| {
+        let mut g = Gen::new(Src::fresh(Rng::derive(run.seed, 19_000 + stream, i)), &[]);
+        let ev = f(&mut g, i);
+        run.eval();
+        run.count(&format!("{}:cases", part));
+        for k in &ev.feats { run.count(&format!("{}:{}", part, k)); }
+        if ev.nontrivial { run.nontrivial(ev.hash ^ fnv(part.as_bytes())); }
+        if i < 3 { run.sample(json!({"part": part, "case": ev.witness.clone()})); }
+        match ev.verdict {
+            Verdict::Ok => {}
+            Verdict::Inconclusive(why) => run.inconclusive(format!("C19 {} case {}: {}", part, i, why)),
+            Verdict::Fail { class, .. } => {
+                run.count(&format!("{}:failing-cases", part));
+                failing.lock().unwrap().push(Failing { idx: i, class, labels: ev.labels });
+            }
+        }
+    });
+    let mut failing = failing.into_inner().unwrap();
+    failing.sort_by_key(|c| c.idx);
+    let tape_of = |idx: u64| -> Vec<u32> {
+        let mut g = Gen::new(Src::fresh(Rng::derive(run.seed, 19_000 + stream, idx)), &[]);
+        let _ = f(&mut g, idx);
+        g.s.tape
+    };
+    // signatures found so far: (class, label set)
+    let mut found: Vec<(String, Vec<String>)> = Vec::new();
+    // Is the failing case explained by a signature already found? = it has every label of that signature and,
+    // with every other choice-label knocked out, it fails in that signature's class (which may differ from the
+    // class of the full case: several defects, or one defect with several symptoms, can meet in one case).
+    let explained = |c: &Failing, found: &[(String, Vec<String>)]| -> Option<usize> {
+        let have = split_labels(&c.labels);
+        for (k, (class, set)) in found.iter().enumerate() {
+            if !set.iter().all(|l| have.contains(l)) { continue; }
+            let sup: Vec<String> = have.iter().filter(|l| !set.contains(l)).cloned().collect();
+            let ev = replay(f, &tape_of(c.idx), &sup, c.idx);
+            // still failing in the same way with every other choice-label knocked out, and showing every label of the signature
+            let now = split_labels(&ev.labels);
+            if fails_as(&ev, class) && set.iter().all(|l| now.contains(l)) { return Some(k); }
+        }
+        None
+    };
+    let full = |c: &Failing, found: &mut Vec<(String, Vec<String>)>| {
+        let (tape, sup) = minimise(f, &tape_of(c.idx), c.idx, &c.class);
+        let ev = replay(f, &tape, &sup, c.idx);
+        match ev.verdict {
+            Verdict::Fail { class, what } => {
+                let sig = format!("C19|{}|{}|{}", part, ev.labels, class);
+                run.violation(&sig, &what, json!({"part": part, "case_index": c.idx, "tape": tape, "suppressed_labels": sup, "case": ev.witness}));
+                run.count(&format!("{}:failing-cases-minimised", part));
+                let set = split_labels(&ev.labels);
+                if !found.iter().any(|(cl, s)| *cl == class && *s == set) { found.push((class, set)); }
+            }
+            _ => run.inconclusive(format!("C19 {} case {}: minimised case no longer fails (non-deterministic case function?)", part, c.idx)),
+        }
+    };
+    // phase 1 (sequential, deterministic): the lowest-index case of each (class, label set) group
+    let mut seen: std::collections::BTreeSet<(String, String)> = Default::default();
+    let mut firsts: Vec<usize> = Vec::new();
+    for (k, c) in failing.iter().enumerate() { if seen.insert((c.class.clone(), c.labels.clone())) { firsts.push(k); } }
+    let mut done = vec![false; failing.len()];
+    let mut fulls = 0;
+    for &k in firsts.iter().take(400) {
+        if explained(&failing[k], &found).is_none() {
+            if fulls >= 12 { continue; }
+            full(&failing[k], &mut found); fulls += 1;
+        }
+        done[k] = true;
+    }
+    // phase 2 (parallel): every other failing case must be explained by a signature found so far
+    let rest: Vec<usize> = (0..failing.len()).filter(|k| !done[*k]).collect();
+    let unexplained: Mutex<Vec<usize>> = Mutex::new(Vec::new());
+    {
+        let found_ref = &found;
+        par_for(rest.len() as u64, |j| {
+            let k = rest[j as usize];
+            if explained(&failing[k], found_ref).is_none() { unexplained.lock().unwrap().push(k); }
+        });
+    }
+    // phase 3: minimise what is left (lowest indices first; in parallel — the result of a minimisation does not
+    // depend on the others — and registered in index order)
+    let mut unexplained = unexplained.into_inner().unwrap();
+    unexplained.sort();
+    let left = unexplained.len().saturating_sub(400) as u64;
+    unexplained.truncate(400);
+    let results: Mutex<Vec<(usize, Vec<u32>, Vec<String>)>> = Mutex::new(Vec::new());
+    par_for(unexplained.len() as u64, |j| {
+        let k = unexplained[j as usize];
+        let c = &failing[k];
+        let (tape, sup) = minimise(f, &tape_of(c.idx), c.idx, &c.class);
+        results.lock().unwrap().push((k, tape, sup));
+    });
+    let mut results = results.into_inner().unwrap();
+    results.sort_by_key(|r| r.0);
+    for (k, tape, sup) in results {
+        let c = &failing[k];
+        let ev = replay(f, &tape, &sup, c.idx);
+        match ev.verdict {
+            Verdict::Fail { class, what } => {
+                let sig = format!("C19|{}|{}|{}", part, ev.labels, class);
+                run.violation(&sig, &what, json!({"part": part, "case_index": c.idx, "tape": tape, "suppressed_labels": sup, "case": ev.witness}));
+                run.count(&format!("{}:failing-cases-minimised", part));
+                let set = split_labels(&ev.labels);
+                if !found.iter().any(|(cl, s)| *cl == class && *s == set) { found.push((class, set)); }
+            }
+            _ => run.inconclusive(format!("C19 {} case {}: minimised case no longer fails (non-deterministic case function?)", part, c.idx)),
+        }
+    }
+    if left > 0 {
+        run.add(&format!("{}:failing-cases-not-minimised", part), left);
+        run.inconclusive(format!("C19 {}: {} failing cases were not minimised (limit of 400 per part)", part, left));
+    }
+    // every failing case counts towards the signature that explains it
+    for (class, set) in &found { run.count(&format!("{}:signature:{}|{}", part, if set.is_empty() { "-".to_string() } else { set.join("+") }, class.split('|').next().unwrap_or(""))); }
+}
+
+// ---------------------------------------------------------------------------------------------
+// shared document pieces
+// ---------------------------------------------------------------------------------------------
+
+const EXTRA_CODES: [usize; 6] = [65536, 65537, 70000, 1 << 20, u32::MAX as usize, usize::MAX];
+
+fn descriptor_obj(missing_width: Option<&Num>) -> Obj {
+    let mut d = vec![
+        ("Type", name("FontDescriptor")), ("FontName", name("AAAAAA+Mon")), ("Flags", Obj::Int(4)),
+        ("FontBBox", mkpdf::ints(&[-100, -200, 1100, 900])), ("ItalicAngle", Obj::Int(0)), ("Ascent", Obj::Int(800)),
+        ("Descent", Obj::Int(-200)), ("CapHeight", Obj::Int(700)), ("StemV", Obj::Int(80)),
+    ];
+    if let Some(m) = missing_width { d.push(("MissingWidth", m.obj())); }
+    dict(d)
+}
+fn descriptor_struct(missing_width: f32) -> FontDescriptor {
+    FontDescriptor {
+        font_name: Name::from("AAAAAA+Mon".to_string()), font_family: None, font_stretch: None, font_weight: None, flags: 4,
+        font_bbox: Rectangle { left: -100., bottom: -200., right: 1100., top: 900. }, italic_angle: 0., ascent: Some(800.),
+        descent: Some(-200.), leading: 0., cap_height: Some(700.), xheight: 0., stem_v: 80., stem_h: 0., avg_width: 0., max_width: 0.,
+        missing_width, font_file: None, font_file2: None, font_file3: None, char_set: None,
+    }
+}
+/// catalog, pages, page with /Resources /Font /F1 `font_nr` 0 R
+fn page_objs(font_nr: u32) -> Vec<(u32, Obj)> {
+    vec![
+        (1, dict(vec![("Type", name("Catalog")), ("Pages", rf(2))])),
+        (2, dict(vec![("Type", name("Pages")), ("Count", Obj::Int(1)), ("Kids", arr(vec![rf(3)]))])),
+        (3, dict(vec![("Type", name("Page")), ("Parent", rf(2)), ("MediaBox", mkpdf::ints(&[0, 0, 612, 792])),
+            ("Resources", dict(vec![("Font", dict(vec![("F1", rf(font_nr))]))]))])),
+    ]
+}
+
+/// a number as written into the file
+#[derive(Clone, Debug)]
+enum Num { I(i64), R(f64) }
+impl Num {
+    fn obj(&self) -> Obj { match self { Num::I(i) => Obj::Int(*i), Num::R(x) => Obj::Real(*x) } }
+    /// the value of the decimal text that is written
+    fn f32(&self) -> f32 { match self { Num::I(i) => *i as f32, Num::R(x) => mkpdf::fmt_real(*x).parse::<f32>().unwrap() } }
+    fn prim(&self) -> Primitive { match self { Num::I(i) => Primitive::Integer(*i as i32), Num::R(_) => Primitive::Number(self.f32()) } }
+    fn text(&self) -> String { match self { Num::I(i) => i.to_string(), Num::R(x) => mkpdf::fmt_real(*x) } }
+}
+/// k-th width of a record: a hash of (seed, k), not tape draws, so that every record of the
+/// generators has a fixed number of draws (the tape minimiser relies on that alignment).
+fn hash_width(seed: u32, k: u32, reals: bool) -> Num {
+    let mut r = Rng::derive(seed as u64, 0x19a, k as u64);
+    let v = r.below(3_000_000);
+    if reals && r.below(2) == 0 { Num::R(v as f64 / 1000.0) } else { Num::I((v % 2001) as i64) }
+}
+/// draw until the number of draws used is a multiple of m (records are aligned for the minimiser)
+fn pad(src: &mut Gen, m: usize) { while src.s.used() % m != 0 { src.draw(1); } }
+fn close(a: f32, b: f32) -> bool { a == b || (a - b).abs() <= 4e-7 * b.abs().max(1.0) }
+
+/// what the library answered for all queried codes
+enum Got { Table(Vec<f32>, Vec<f32>), NoWidths, Error(String), Panic(String, String), Harness(String) }
+
+fn table_of(w: &Widths, upto: usize) -> (Vec<f32>, Vec<f32>) {
+    ((0..=upto).map(|c| w.get(c)).collect(), EXTRA_CODES.iter().map(|&c| w.get(c)).collect())
+}
+
+/// doc route: load the document, fetch font F1 of page 0 from the resources, ask for its widths
+fn widths_via_file(bytes: Vec<u8>, cfg_idx: u64, upto: usize) -> Got {
+    let cfg = CFGS[(cfg_idx % 4) as usize];
+    let r = guard(|| {
+        with_file!(bytes, cfg, b"", |file| {
+            let file = match file { Ok(f) => f, Err(e) => return Got::Harness(format!("document does not load: {}", e)) };
+            let page = match file.get_page(0) { Ok(p) => p, Err(e) => return Got::Harness(format!("page 0: {}", e)) };
+            let res = match page.resources() { Ok(r) => r, Err(e) => return Got::Harness(format!("resources: {}", e)) };
+            let lazy = match res.fonts.iter().next() { Some((_, l)) => l.clone(), None => return Got::Harness("no font in resources".into()) };
+            let resolver = file.resolver();
+            let font = match lazy.load(&resolver) { Ok(f) => f, Err(e) => return Got::Error(format!("font does not load: {}", e)) };
+            match font.widths(&resolver) {
+                Ok(Some(w)) => { let (t, x) = table_of(&w, upto); Got::Table(t, x) }
+                Ok(None) => Got::NoWidths,
+                Err(e) => Got::Error(format!("widths(): {}", e)),
+            }
+        })
+    });
+    match r { Ok(g) => g, Err(p) => Got::Panic(p.signature(), p.describe()) }
+}
+fn widths_via_struct(font: &Font, upto: usize) -> Got {
+    match guard(|| font.widths(&NoResolve)) {
+        Ok(Ok(Some(w))) => { let (t, x) = table_of(&w, upto); Got::Table(t, x) }
+        Ok(Ok(None)) => Got::NoWidths,
+        Ok(Err(e)) => Got::Error(format!("widths(): {}", e)),
+        Err(p) => Got::Panic(p.signature(), p.describe()),
+    }
+}
+
+/// compare an answer with the model; `assigned[c]` says whether the array assigns code c.
+/// Returns None when the answer is right, Some((class, what)) otherwise; Err = harness trouble.
+fn judge_widths(got: &Got, model: &[f32], assigned: &[bool], default: f32, route: &str) -> Result<Option<(String, String)>, String> {
+    match got {
+        Got::Harness(e) => Err(format!("{} route: {}", route, e)),
+        Got::Panic(sig, d) => Ok(Some((sig.clone(), format!("{} route: panic {}", route, d)))),
+        Got::Error(e) => Ok(Some(("error-instead-of-value".into(), format!("{} route: {}", route, e)))),
+        Got::NoWidths => Ok(Some(("none-instead-of-value".into(), format!("{} route: widths() returned None", route)))),
+        Got::Table(t, extra) => {
+            let mut bad_assigned = Vec::new();
+            let mut bad_default = Vec::new();
+            for c in 0..model.len() {
+                if !close(t[c], model[c]) {
+                    let v = if assigned[c] { &mut bad_assigned } else { &mut bad_default };
+                    if v.len() < 4 { v.push(format!("code {}: got {} want {}", c, t[c], model[c])); } else if v.len() == 4 { v.push("…".into()); }
+                }
+            }
+            for (k, &c) in EXTRA_CODES.iter().enumerate() {
+                if !close(extra[k], default) && bad_default.len() < 5 { bad_default.push(format!("code {}: got {} want default {}", c, extra[k], default)); }
+            }
+            if !bad_assigned.is_empty() {
+                Ok(Some(("wrong-width-for-assigned-code".into(), format!("{} route: {}", route, bad_assigned.join("; ")))))
+            } else if !bad_default.is_empty() {
+                Ok(Some(("wrong-width-for-unassigned-code".into(), format!("{} route: {}", route, bad_default.join("; ")))))
+            } else { Ok(None) }
+        }
+    }
+}
+
+// ---------------------------------------------------------------------------------------------
+// (a) composite fonts
+// ---------------------------------------------------------------------------------------------
+
+#[derive(Clone, Debug)]
+enum Form { List(Vec<Num>), Range(u32, Num) }
+#[derive(Clone, Debug)]
+struct Group { first: u32, form: Form }
+impl Group {
+    fn last(&self) -> u32 { match &self.form { Form::List(v) => self.first + v.len() as u32 - 1, Form::Range(l, _) => *l } }
+}
+
+/// header: 3 draws (caller pads to 8); one record of 8 draws per group; permutation draws last
+fn gen_groups(src: &mut Gen) -> Vec<Group> {
+    let mut groups: Vec<Group> = Vec::new();
+    let full = src.alt(40, &["", "full-range-0-65535"]) == 1;
+    let n_raw = src.draw(100);
+    let permute = src.alt_silent(1, &["ascending-order", "permuted-order"]) == 1;
+    pad(src, 8);
+    let mut keys: Vec<u32> = Vec::new();
+    // one draw, monotone (the minimiser lowers it step by step); the top values give the empty array
+    let n = if full { 1 } else { match n_raw { 0..=34 => 1, 35..=64 => 2 + (n_raw - 35) / 4, 65..=94 => 10 + (n_raw - 65), _ => 0 } };
+    let mut cursor: u32 = 0;
+    for _ in 0..n {
+        let gap_kind = src.pick_w(2, 4);
+        let gap_val = src.draw(40000);
+        let range = src.alt_silent(1, &["list-form", "range-form"]) == 1;
+        let len_kind = src.pick_w(3, 3);
+        let len_val = src.draw(65536);
+        let wseed = src.draw(1 << 20);
+        let reals = src.alt_silent(3, &["int-width", "real-width"]) == 1;
+        let okey = src.draw(1000); // position of the group in the array = rank of this key (ties: ascending codes)
+        pad(src, 8);
+        if full { groups.push(Group { first: 0, form: Form::Range(65535, hash_width(wseed, 0, reals)) }); break; }
+        let gap = match gap_kind { 0 => 0, 1 => 1 + gap_val % 8, 2 => gap_val % 300, 3 => gap_val % 5000, _ => gap_val };
+        let start = cursor + gap;
+        if start > 65535 { continue; }
+        let len = if range {
+            match len_kind { 0 => 1 + len_val % 6, 1 => 1 + len_val % 300, 2 => 1 + len_val % 6000, _ => 1 + len_val }
+        } else {
+            match len_kind { 0 => 1 + len_val % 6, 1 => 1 + len_val % 300, _ => 1 + len_val % 4000 }
+        };
+        let last = (start + len - 1).min(65535);
+        let form = if range { Form::Range(last, hash_width(wseed, 0, reals)) } else { Form::List((0..=last - start).map(|k| hash_width(wseed, k, reals)).collect()) };
+        groups.push(Group { first: start, form });
+        keys.push(okey);
+        cursor = last + 1;
+    }
+    // permutation: stable sort by the per-group keys (all keys 0 = ascending order); the keys live in the
+    // group records so that deleting a record does not disturb the order of the others
+    if permute && groups.len() > 1 {
+        let mut idx: Vec<usize> = (0..groups.len()).collect();
+        idx.sort_by_key(|i| keys[*i]);
+        groups = idx.into_iter().map(|i| groups[i].clone()).collect();
+    }
+    groups
+}
+
+/// structural labels of the insertion order (which growth case of the table each group hits)
+fn order_labels(src: &mut Gen, groups: &[Group]) {
+    let mut span: Option<(u32, u32)> = None;
+    for g in groups {
+        match span {
+            None => span = Some((g.first, g.last())),
+            Some((lo, hi)) => {
+                if g.first == hi + 1 { /* append */ }
+                else if g.first > hi + 1 { src.label("gap-after-table"); }
+                else if g.last() < lo { src.label("prepend"); if g.last() + 1 < lo { src.label("gap-before-table"); } }
+                else { src.label("fill-inside-table"); }
+                span = Some((lo.min(g.first), hi.max(g.last())));
+            }
+        }
+    }
+    if groups.is_empty() { src.label("empty-w"); }
+    if groups.len() > 1 { src.label("multi-group"); }
+    if groups.windows(2).any(|p| p[0].first > p[1].first) { src.label("permuted-order"); }
+    if groups.iter().any(|g| matches!(g.form, Form::Range(..))) { src.label("range-form"); }
+    if groups.iter().any(|g| match &g.form { Form::Range(_, w) => matches!(w, Num::R(_)), Form::List(v) => v.iter().any(|w| matches!(w, Num::R(_))) }) { src.label("real-width"); }
+}
+
+fn w_text(groups: &[Group]) -> String {
+    let mut s = String::from("[");
+    for (k, g) in groups.iter().enumerate() {
+        if k > 0 { s.push(' '); }
+        if s.len() > 600 { s.push_str(&format!("… ({} groups)", groups.len())); break; }
+        match &g.form {
+            Form::List(v) => {
+                s.push_str(&format!("{} [", g.first));
+                for (i, w) in v.iter().enumerate() { if i >= 8 { s.push_str(&format!(" …({} widths)", v.len())); break; } if i > 0 { s.push(' '); } s.push_str(&w.text()); }
+                s.push(']');
+            }
+            Form::Range(l, w) => s.push_str(&format!("{} {} {}", g.first, l, w.text())),
+        }
+    }
+    s.push(']');
+    s
+}
+
+fn case_a(src: &mut Gen, idx: u64) -> Eval {
+    // fixed-shape choices first, so that shrinking the variable part does not shift them on the tape
+    let dw_pick = *src.pick(&[0i64, 1, 500, 1000, 777, 2048]);
+    let dw: Option<Num> = match src.alt(2, &["dw-absent", "dw-given"]) { 0 => None, _ => Some(Num::I(dw_pick)) };
+    let w_indirect = src.alt(5, &["", "w-indirect"]) == 1;
+    let sub_indirect = src.alt(5, &["", "sub-array-indirect"]) == 1;
+    let type0 = src.alt(2, &["cidfonttype2", "cidfonttype0"]) == 1;
+    let groups = gen_groups(src); // 3 more header draws = 8, then records of 8
+    order_labels(src, &groups);
+    let default = dw.as_ref().map(|d| d.f32()).unwrap_or(1000.0);
+
+    // model from the generator's bookkeeping
+    let mut model = vec![default; 65536];
+    let mut assigned = vec![false; 65536];
+    let mut feats: Vec<String> = Vec::new();
+    for g in &groups {
+        match &g.form {
+            Form::List(v) => { for (k, w) in v.iter().enumerate() { model[g.first as usize + k] = w.f32(); assigned[g.first as usize + k] = true; } feats.push("groups:list-form".into()); }
+            Form::Range(l, w) => { for c in g.first..=*l { model[c as usize] = w.f32(); assigned[c as usize] = true; } feats.push("groups:range-form".into()); if *l - g.first >= 30000 { feats.push("groups:range>=30000-codes".into()); } }
+        }
+    }
+
+    // the /W object (and side objects for indirect sub-arrays)
+    let mut side: Vec<(u32, Obj)> = Vec::new();
+    let mut next_nr = 8;
+    let mut items: Vec<Obj> = Vec::new();
+    let mut any_sub = false;
+    for (k, g) in groups.iter().enumerate() {
+        items.push(Obj::Int(g.first as i64));
+        match &g.form {
+            Form::List(v) => {
+                let a = arr(v.iter().map(|w| w.obj()).collect());
+                if sub_indirect && k % 2 == 0 { side.push((next_nr, a)); items.push(rf(next_nr)); next_nr += 1; any_sub = true; } else { items.push(a); }
+            }
+            Form::Range(l, w) => { items.push(Obj::Int(*l as i64)); items.push(w.obj()); }
+        }
+    }
+    let w_arr = arr(items);
+    let w_entry = if w_indirect { side.push((7, w_arr.clone())); rf(7) } else { w_arr.clone() };
+    if sub_indirect && !any_sub { src.s.labels.retain(|l| *l != "sub-array-indirect"); }
+
+    // generator ↔ reference interpreter cross-check
+    let side_c = side.clone();
+    let deref = move |n: u32| side_c.iter().find(|(k, _)| *k == n).map(|(_, o)| o.clone());
+    let labels_then = label_str(src);
+    let witness = json!({"W": w_text(&groups), "DW": dw.as_ref().map(|d| d.text()), "w_indirect": w_indirect, "sub_arrays_indirect": any_sub,
+        "descendant": if type0 { "CIDFontType0" } else { "CIDFontType2" }, "groups": groups.len()});
+    let mk = |verdict: Verdict, feats: Vec<String>| Eval { verdict, labels: labels_then.clone(), hash: fnv(format!("{:?}{:?}", groups, dw).as_bytes()), nontrivial: !groups.is_empty(), feats, witness: witness.clone() };
+    match reference::interpret_w(&w_entry, &deref) {
+        Err(e) => return mk(Verdict::Inconclusive(format!("generated /W rejected by the reference interpreter: {}", e)), feats),
+        Ok(refm) => {
+            for c in 0..65536 {
+                let want = refm[c].map(|v| v as f32);
+                if want.is_some() != assigned[c] || want.map(|v| !close(v, model[c])).unwrap_or(false) {
+                    return mk(Verdict::Inconclusive(format!("generator model and reference interpreter disagree at code {}", c)), feats);
+                }
+            }
+        }
+    }
+
+    // route 1: public struct fields (no indirection possible without a file)
+    let cid = CIDFont {
+        system_info: { let mut d = Dictionary::new(); d.insert("Registry", PdfString::from("Adobe")); d.insert("Ordering", PdfString::from("Identity")); d.insert("Supplement", 0); d },
+        font_descriptor: descriptor_struct(0.0),
+        default_width: default,
+        widths: groups.iter().flat_map(|g| match &g.form {
+            Form::List(v) => vec![Primitive::Integer(g.first as i32), Primitive::Array(v.iter().map(|w| w.prim()).collect())],
+            Form::Range(l, w) => vec![Primitive::Integer(g.first as i32), Primitive::Integer(*l as i32), w.prim()],
+        }).collect(),
+        cid_to_gid_map: None,
+        _other: Dictionary::new(),
+    };
+    let inner = Font { subtype: if type0 { FontType::CIDFontType0 } else { FontType::CIDFontType2 }, name: Some(Name::from("AAAAAA+Mon".to_string())),
+        data: if type0 { FontData::CIDFontType0(cid) } else { FontData::CIDFontType2(cid) }, encoding: None, to_unicode: None, _other: Dictionary::new() };
+    let outer = if idx % 2 == 0 { inner } else {
+        Font { subtype: FontType::Type0, name: Some(Name::from("AAAAAA+Mon".to_string())),
+            data: FontData::Type0(Type0Font { descendant_fonts: vec![MaybeRef::Direct(Arc::new(inner))], to_unicode: None }), encoding: None, to_unicode: None, _other: Dictionary::new() }
+    };
+    feats.push("route:struct".into());
+    match judge_widths(&widths_via_struct(&outer, 65535), &model, &assigned, default, "struct") {
+        Err(e) => return mk(Verdict::Inconclusive(e), feats),
+        Ok(Some((class, what))) => return mk(Verdict::Fail { class, what }, feats),
+        Ok(None) => {}
+    }
+
+    // route 2: a document read by the real reader
+    let mut cidfont = vec![("Type", name("Font")), ("Subtype", name(if type0 { "CIDFontType0" } else { "CIDFontType2" })), ("BaseFont", name("AAAAAA+Mon")),
+        ("CIDSystemInfo", dict(vec![("Registry", st("Adobe")), ("Ordering", st("Identity")), ("Supplement", Obj::Int(0))])),
+        ("FontDescriptor", rf(6))];
+    if let Some(d) = &dw { cidfont.push(("DW", d.obj())); }
+    cidfont.push(("W", w_entry));
+    if !type0 { cidfont.push(("CIDToGIDMap", name("Identity"))); }
+    let mut objs = page_objs(4);
+    objs.push((4, dict(vec![("Type", name("Font")), ("Subtype", name("Type0")), ("BaseFont", name("AAAAAA+Mon")), ("Encoding", name("Identity-H")),
+        ("DescendantFonts", arr(vec![rf(5)]))])));
+    objs.push((5, dict(cidfont)));
+    objs.push((6, descriptor_obj(None)));
+    objs.extend(side);
+    objs.sort_by_key(|(n, _)| *n);
+    let bytes = simple_doc(&objs, 1, vec![]);
+    feats.push(format!("route:file:{}", CFGS[(idx % 4) as usize].name()));
+    match judge_widths(&widths_via_file(bytes, idx, 65535), &model, &assigned, default, "file") {
+        Err(e) => mk(Verdict::Inconclusive(e), feats),
+        Ok(Some((class, what))) => mk(Verdict::Fail { class, what }, feats),
+        Ok(None) => mk(Verdict::Ok, feats),
+    }
+}
+
+// ---------------------------------------------------------------------------------------------
+// (b) simple fonts
+// ---------------------------------------------------------------------------------------------
+
+const SIMPLE_UPTO: usize = 1023;
+
+fn case_b(src: &mut Gen, idx: u64) -> Eval {
+    let truetype = src.alt(1, &["type1", "truetype"]) == 1;
+    let desc = src.alt(2, &["no-descriptor", "descriptor", "missing-width"]);
+    let mw = 1 + src.draw(1500) as i64;
+    let missing: Option<Num> = if desc == 2 { Some(Num::I(mw)) } else { None };
+    let widths_indirect = src.alt(5, &["", "widths-indirect"]) == 1;
+    let first = src.draw(256) as i64;
+    let len_kind = src.pick_w(3, 2);
+    let len_val = src.draw(301) as usize;
+    let wseed = src.draw(1 << 20);
+    let reals = src.alt_silent(3, &["int-width", "real-width"]) == 1;
+    let len = match len_kind { 0 => 1 + len_val % 8, 1 => 1 + len_val % 256, _ => len_val };
+    if len == 0 { src.label("empty-widths"); }
+    if first as usize + len > 256 { src.label("table-beyond-code-255"); }
+    let widths: Vec<Num> = (0..len).map(|k| hash_width(wseed, k as u32, reals)).collect();
+    if widths.iter().any(|w| matches!(w, Num::R(_))) { src.label("real-width"); }
+    // PDF 32000-1 §9.6.2.1 / Table 122: codes outside FirstChar..LastChar use /MissingWidth of the descriptor, default 0
+    let default = missing.as_ref().map(|m| m.f32()).unwrap_or(0.0);
+    let last = first + len as i64 - 1;
+
+    let mut model = vec![default; SIMPLE_UPTO + 1];
+    let mut assigned = vec![false; SIMPLE_UPTO + 1];
+    for (k, w) in widths.iter().enumerate() { model[first as usize + k] = w.f32(); assigned[first as usize + k] = true; }
+
+    let labels = label_str(src);
+    let wtxt: Vec<String> = widths.iter().take(10).map(|w| w.text()).collect();
+    let witness = json!({"Subtype": if truetype { "TrueType" } else { "Type1" }, "FirstChar": first, "LastChar": last, "Widths_len": len,
+        "Widths_head": wtxt.join(" "), "FontDescriptor": desc > 0, "MissingWidth": missing.as_ref().map(|m| m.text()), "widths_indirect": widths_indirect});
+    let feats_base = vec![format!("subtype:{}", if truetype { "TrueType" } else { "Type1" })];
+    let mk = |verdict: Verdict, feats: Vec<String>| Eval { verdict, labels: labels.clone(),
+        hash: fnv(format!("{} {} {:?} {:?}", first, truetype, widths, missing).as_bytes()), nontrivial: len > 0, feats, witness: witness.clone() };
+    let mut feats = feats_base;
+
+    // route 1: struct
+    let tf = TFont { base_font: Some(Name::from("Mon".to_string())), first_char: Some(first as i32), last_char: Some(last as i32),
+        widths: Some(widths.iter().map(|w| w.f32()).collect()), font_descriptor: if desc > 0 { Some(descriptor_struct(default)) } else { None } };
+    let font = Font { subtype: if truetype { FontType::TrueType } else { FontType::Type1 }, name: Some(Name::from("Mon".to_string())),
+        data: if truetype { FontData::TrueType(tf) } else { FontData::Type1(tf) }, encoding: None, to_unicode: None, _other: Dictionary::new() };
+    feats.push("route:struct".into());
+    match judge_widths(&widths_via_struct(&font, SIMPLE_UPTO), &model, &assigned, default, "struct") {
+        Err(e) => return mk(Verdict::Inconclusive(e), feats),
+        Ok(Some((class, what))) => return mk(Verdict::Fail { class, what }, feats),
+        Ok(None) => {}
+    }
+    // route 2: file
+    let warr = arr(widths.iter().map(|w| w.obj()).collect());
+    let mut fd = vec![("Type", name("Font")), ("Subtype", name(if truetype { "TrueType" } else { "Type1" })), ("BaseFont", name("Mon")),
+        ("FirstChar", Obj::Int(first)), ("LastChar", Obj::Int(last)), ("Widths", if widths_indirect { rf(6) } else { warr.clone() })];
+    if desc > 0 { fd.push(("FontDescriptor", rf(5))); }
+    let mut objs = page_objs(4);
+    objs.push((4, dict(fd)));
+    objs.push((5, descriptor_obj(missing.as_ref())));
+    if widths_indirect { objs.push((6, warr)); }
+    let bytes = simple_doc(&objs, 1, vec![]);
+    feats.push(format!("route:file:{}", CFGS[(idx % 4) as usize].name()));
+    match judge_widths(&widths_via_file(bytes, idx, SIMPLE_UPTO), &model, &assigned, default, "file") {
+        Err(e) => mk(Verdict::Inconclusive(e), feats),
+        Ok(Some((class, what))) => mk(Verdict::Fail { class, what }, feats),
+        Ok(None) => mk(Verdict::Ok, feats),
+    }
+}
+
+// ---------------------------------------------------------------------------------------------
+// Unicode texts, reading a CMap back through the library, comparing maps
+// ---------------------------------------------------------------------------------------------
+
+/// Text generation is a hash of (seed, k) with two per-record switches (multi-character targets,
+/// supplementary planes): fixed number of tape draws per record. Text 0 of a record always shows the
+/// switched-on features.
+fn hash_text(seed: u32, k: u32, multi: bool, supp: bool) -> String {
+    let mut r = Rng::derive(seed as u64, 0x19c, k as u64);
+    let n = if multi && (k == 0 || r.below(2) == 0) { 2 + r.below(3) as usize } else { 1 };
+    let mut s = String::new();
+    for i in 0..n {
+        let v = r.below(0x100000) as u32;
+        let c = if supp && ((k == 0 && i == 0) || r.below(3) == 0) { 0x10000 + v } else {
+            match r.below(4) {
+                0 | 1 => 0x41 + v % 0x3E,
+                2 => 0xA0 + v % 0x2F60,
+                _ => { let cp = 1 + v % 0xFFFF; if (0xD800..0xE000).contains(&cp) { 0x4E00 + (cp & 0x7FF) } else { cp } }
+            }
+        };
+        s.push(char::from_u32(c).unwrap());
+    }
+    s
+}
+/// the three draws of a record that steer its texts
+fn text_switches(src: &mut Gen) -> (u32, bool, bool) {
+    let seed = src.draw(1 << 20);
+    let multi = src.alt_silent(5, &["single-char", "multi-char-target"]) == 1;
+    let supp = src.alt_silent(5, &["bmp", "supplementary-plane"]) == 1;
+    (seed, multi, supp)
+}
+fn text_labels(src: &mut Gen, want: &BTreeMap<u16, String>) {
+    if want.values().any(|s| s.chars().count() > 1) { src.label("multi-char-target"); }
+    if want.values().any(|s| s.chars().any(|c| c as u32 >= 0x10000)) { src.label("supplementary-plane"); }
+}
+fn utf16be_bytes(s: &str) -> Vec<u8> { s.encode_utf16().flat_map(|u| [(u >> 8) as u8, u as u8]).collect() }
+
+enum Read { Map(BTreeMap<u16, String>), NoMap, Error(String), Panic(String, String), Harness(String) }
+
+fn collect_map(m: &ToUnicodeMap) -> Read {
+    let mut out = BTreeMap::new();
+    let mut n = 0;
+    for (k, v) in m.iter() { out.insert(k, v.to_string()); n += 1; }
+    // the lookup interface must agree with the iteration interface
+    for (k, v) in out.iter() { if m.get(*k) != Some(v.as_str()) { return Read::Error(format!("get({}) disagrees with iter()", k)); } }
+    if n != m.len() || m.is_empty() != (n == 0) { return Read::Error("len()/is_empty() disagree with iter()".into()); }
+    Read::Map(out)
+}
+
+fn read_via_struct(text: &[u8]) -> Read {
+    let stream: Stream<()> = Stream::new((), text.to_vec());
+    let font = Font { subtype: FontType::Type1, name: Some(Name::from("Mon".to_string())), data: FontData::Other(Dictionary::new()), encoding: None,
+        to_unicode: Some(RcRef::new(PlainRef { id: 9, gen: 0 }, Arc::new(stream))), _other: Dictionary::new() };
+    match guard(|| font.to_unicode(&NoResolve)) {
+        Ok(Some(Ok(m))) => collect_map(&m),
+        Ok(Some(Err(e))) => Read::Error(format!("to_unicode(): {}", e)),
+        Ok(None) => Read::NoMap,
+        Err(p) => Read::Panic(p.signature(), p.describe()),
+    }
+}
+fn read_via_file(text: &[u8], idx: u64, flate: bool) -> Read {
+    let mut objs = page_objs(4);
+    objs.push((4, dict(vec![("Type", name("Font")), ("Subtype", name("Type1")), ("BaseFont", name("Helvetica")), ("ToUnicode", rf(5))])));
+    let (extra, data) = if flate { mkpdf::flate_filter(text) } else { mkpdf::no_filter(text) };
+    objs.push((5, Obj::Stream(extra, data)));
+    let bytes = simple_doc(&objs, 1, vec![]);
+    let cfg = CFGS[(idx % 4) as usize];
+    let r = guard(|| {
+        with_file!(bytes, cfg, b"", |file| {
+            let file = match file { Ok(f) => f, Err(e) => return Read::Harness(format!("document does not load: {}", e)) };
+            let page = match file.get_page(0) { Ok(p) => p, Err(e) => return Read::Harness(format!("page 0: {}", e)) };
+            let res = match page.resources() { Ok(r) => r, Err(e) => return Read::Harness(format!("resources: {}", e)) };
+            let lazy = match res.fonts.iter().next() { Some((_, l)) => l.clone(), None => return Read::Harness("no font in resources".into()) };
+            let resolver = file.resolver();
+            let font = match lazy.load(&resolver) { Ok(f) => f, Err(e) => return Read::Harness(format!("font does not load: {}", e)) };
+            match font.to_unicode(&resolver) {
+                Some(Ok(m)) => collect_map(&m),
+                Some(Err(e)) => Read::Error(format!("to_unicode(): {}", e)),
+                None => Read::NoMap,
+            }
+        })
+    });
+    match r { Ok(g) => g, Err(p) => Read::Panic(p.signature(), p.describe()) }
+}
+
+fn judge_map(got: &Read, want: &BTreeMap<u16, String>, route: &str) -> Result<Option<(String, String)>, String> {
+    let esc = |s: &str| -> String { s.chars().map(|c| format!("U+{:04X}", c as u32)).collect::<Vec<_>>().join(" ") };
+    match got {
+        Read::Harness(e) => Err(format!("{} route: {}", route, e)),
+        Read::Panic(sig, d) => Ok(Some((sig.clone(), format!("{} route: panic {}", route, d)))),
+        Read::Error(e) => Ok(Some(("error-instead-of-map".into(), format!("{} route: {}", route, e)))),
+        Read::NoMap => Ok(Some(("none-instead-of-map".into(), format!("{} route: to_unicode() returned None", route)))),
+        Read::Map(m) => {
+            let mut wrong = Vec::new(); let mut missing = Vec::new(); let mut extra = Vec::new();
+            for (k, v) in want { match m.get(k) { None => missing.push(*k), Some(g) if g != v => wrong.push(format!("<{:04X}>: got {} want {}", k, esc(g), esc(v))), _ => {} } }
+            for k in m.keys() { if !want.contains_key(k) { extra.push(*k); } }
+            let codes = |v: &[u16]| v.iter().take(6).map(|c| format!("<{:04X}>", c)).collect::<Vec<_>>().join(" ");
+            if !wrong.is_empty() {
+                Ok(Some(("wrong-text".into(), format!("{} route: {} codes map to the wrong text, e.g. {}", route, wrong.len(), wrong.iter().take(3).cloned().collect::<Vec<_>>().join("; ")))))
+            } else if !missing.is_empty() {
+                Ok(Some(("missing-entries".into(), format!("{} route: {} of {} codes are missing from the map that was read, e.g. {}", route, missing.len(), want.len(), codes(&missing)))))
+            } else if !extra.is_empty() {
+                Ok(Some(("extra-entries".into(), format!("{} route: {} codes were read that the text does not define, e.g. {}", route, extra.len(), codes(&extra)))))
+            } else { Ok(None) }
+        }
+    }
+}
+
+/// read `text` back on both routes and judge
+fn judge_text(text: &[u8], want: &BTreeMap<u16, String>, idx: u64, feats: &mut Vec<String>) -> Verdict {
+    feats.push("route:struct".into());
+    match judge_map(&read_via_struct(text), want, "struct") {
+        Err(e) => return Verdict::Inconclusive(e),
+        Ok(Some((class, what))) => return Verdict::Fail { class, what },
+        Ok(None) => {}
+    }
+    let flate = idx % 3 == 0;
+    feats.push(format!("route:file:{}{}", CFGS[(idx % 4) as usize].name(), if flate { ":flate" } else { "" }));
+    match judge_map(&read_via_file(text, idx, flate), want, "file") {
+        Err(e) => Verdict::Inconclusive(e),
+        Ok(Some((class, what))) => Verdict::Fail { class, what },
+        Ok(None) => Verdict::Ok,
+    }
+}
+
+// ---------------------------------------------------------------------------------------------
+// (c) writer → reader
+// ---------------------------------------------------------------------------------------------
+
+fn case_c(src: &mut Gen, idx: u64) -> Eval {
+    // header of 8 draws, then one record of 8 draws per item
+    let with_ffff = src.alt_silent(20, &["", "code-ffff"]) == 1;
+    let n_raw = src.draw(100);
+    let (fseed, fmulti, fsupp) = text_switches(src);
+    pad(src, 8);
+    // one draw, monotone; the top values give the empty map
+    let n_items = match n_raw { 0..=49 => 1 + n_raw / 10, 50..=79 => 6 + (n_raw - 50) * 2, 80..=96 => 70 + (n_raw - 80) * 30, _ => 0 };
+    let mut want: BTreeMap<u16, String> = BTreeMap::new();
+    let mut next: u32 = 0; // lowest code that is not adjacent to anything placed so far
+    let mut feats: Vec<String> = Vec::new();
+    for _ in 0..n_items {
+        let gap_kind = src.pick_w(3, 2);
+        let gap_val = src.draw(30000);
+        let run = src.alt_silent(2, &["isolated-code", "consecutive-codes"]) == 1;
+        let len_kind = src.pick_w(4, 1);
+        let len_val = src.draw(400);
+        let (tseed, multi, supp) = text_switches(src);
+        pad(src, 8);
+        let gap = match gap_kind { 0 => gap_val % 4, 1 => gap_val % 300, _ => gap_val };
+        let start = next + gap;
+        if start > 65535 { continue; }
+        let run_len = if run { 2 + match len_kind { 0 => len_val % 6, _ => len_val } } else { 1 };
+        let last = (start + run_len - 1).min(65535);
+        for c in start..=last { want.insert(c as u16, hash_text(tseed, c - start, multi, supp)); }
+        feats.push(if last > start { "items:run".into() } else { "items:single".into() });
+        next = last + 2;
+    }
+    if with_ffff && !want.contains_key(&0xFFFE) && !want.contains_key(&0xFFFF) { want.insert(0xFFFF, hash_text(fseed, 0, fmulti, fsupp)); }
+    // labels describe the case as generated
+    if want.contains_key(&0xFFFF) { src.label("code-ffff"); }
+    if want.keys().any(|k| *k < 0xFFFF && want.contains_key(&(k + 1))) { src.label("consecutive-codes"); }
+    text_labels(src, &want);
+
+    let map = if idx % 2 == 0 {
+        ToUnicodeMap::create(want.iter().map(|(k, v)| (*k, v.as_str().into())))
+    } else {
+        let mut m = ToUnicodeMap::new();
+        for (k, v) in want.iter().rev() { m.insert(*k, v.as_str().into()); }
+        m
+    };
+    let labels = label_str(src);
+    let written = guard(|| write_cmap(&map));
+    let text = match &written { Ok(t) => t.clone(), Err(_) => String::new() };
+    let witness = json!({"map_entries": want.len(), "map_head": want.iter().take(6).map(|(k, v)| format!("<{:04X}> -> {}", k, v.escape_unicode())).collect::<Vec<_>>(),
+        "written_text": show(text.as_bytes())});
+    let hash = fnv(format!("{:?}", want).as_bytes());
+    let verdict = match written {
+        Err(p) => Verdict::Fail { class: p.signature(), what: format!("write_cmap panicked: {}", p.describe()) },
+        Ok(_) => judge_text(text.as_bytes(), &want, idx, &mut feats),
+    };
+    Eval { verdict, labels, hash, nontrivial: !want.is_empty(), feats, witness }
+}
+
+// ---------------------------------------------------------------------------------------------
+// (d) conformant CMap texts
+// ---------------------------------------------------------------------------------------------
+
+#[derive(Clone, Debug)]
+enum Item {
+    Char { code: u32, w: usize, dst: String },
+    RangeStr { lo: u32, hi: u32, w: usize, dst: Vec<u8> },
+    RangeArr { lo: u32, hi: u32, w: usize, dsts: Vec<String> },
+}
+impl Item { fn is_char(&self) -> bool { matches!(self, Item::Char { .. }) } }
+
+/// Formatting of a CMap text. The places where an optional formatting feature is applied are NOT
+/// tape draws but a hash of (seed, running counter): density 0 = everywhere, so that shrinking the
+/// entries never makes an enabled feature disappear from the text.
+struct Fmt { eol: &'static str, lower: bool, inner_ws: bool, sep: &'static str, comments: u8, share_line: bool, tight: bool,
+    seed: u32, density: u32, ctr: std::cell::Cell<u32> }
+impl Fmt {
+    fn h(&self) -> u64 { let c = self.ctr.get(); self.ctr.set(c + 1); fnv(&[self.seed.to_le_bytes(), c.to_le_bytes()].concat()) >> 7 }
+    /// true everywhere when density is 0, otherwise with probability 1/den at pseudo-random places
+    fn coin(&self, den: u64) -> bool { let h = self.h(); self.density == 0 || h % den == 0 }
+    fn index(&self, n: usize) -> usize { (self.h() % n as u64) as usize }
+}
+
+fn hexstr(f: &Fmt, b: &[u8]) -> String {
+    let mut s = String::from("<");
+    for (i, x) in b.iter().enumerate() {
+        if f.inner_ws && i > 0 && f.coin(3) { s.push(' '); }
+        if f.lower { s.push_str(&format!("{:02x}", x)); } else { s.push_str(&format!("{:02X}", x)); }
+    }
+    s.push('>');
+    s
+}
+fn code_bytes(code: u32, w: usize) -> Vec<u8> { if w == 1 { vec![code as u8] } else { vec![(code >> 8) as u8, code as u8] } }
+
+const COMMENTS: [&str; 4] = ["% generated", "%", "%% glyph names follow", "% 100 entries"];
+const KEYWORD_COMMENTS: [&str; 4] = ["% beginbfchar", "% 1 beginbfrange <0000> <0001> <0041>", "% endcmap", "% endbfchar endbfrange"];
+
+fn case_d(src: &mut Gen, idx: u64) -> Eval {
+    // formatting choices first (fixed shape), so that shrinking the entries does not shift them on the tape
+    let f = Fmt {
+        eol: ["\n", "\r\n", "\r"][src.alt(6, &["eol-lf", "eol-crlf", "eol-cr"])],
+        lower: src.alt(4, &["", "hex-lowercase"]) == 1,
+        inner_ws: src.alt(8, &["", "hex-inner-whitespace"]) == 1,
+        sep: [" ", "\t", "\x0c", "  "][src.alt(8, &["", "tab-separator", "formfeed-separator", "double-space"])],
+        comments: src.alt(5, &["", "comments", "comments-with-keywords"]) as u8,
+        share_line: src.alt(8, &["", "entries-share-a-line"]) == 1,
+        tight: src.alt(8, &["", "no-space-between-strings"]) == 1,
+        seed: src.draw(1 << 16), density: src.draw(2), ctr: std::cell::Cell::new(0),
+    };
+    let mode = src.alt(3, &["two-byte-codes", "one-byte-codes", "mixed-width-codes"]);
+    // zones of the code space: (lo, hi, width in bytes)
+    let zones: Vec<(u32, u32, usize)> = match mode { 0 => vec![(0, 0xFFFF, 2)], 1 => vec![(0, 0xFF, 1)], _ => vec![(0, 0x7F, 1), (0x8000, 0xFFFF, 2)] };
+    let n_raw = src.draw(100);
+    let shuffle = src.alt_silent(1, &["ascending-entries", "shuffled-entries"]) == 1;
+    let mut keys: Vec<u32> = Vec::new();
+    pad(src, 16); // header = 16 draws, then one record of 16 draws per item
+    let n_items = match n_raw { 0..=49 => 1 + n_raw / 9, 50..=79 => 7 + (n_raw - 50) * 2, _ => 70 + (n_raw - 80) * 17 };
+    let mut items: Vec<Item> = Vec::new();
+    let mut want: BTreeMap<u16, String> = BTreeMap::new();
+    let mut cursors: Vec<u32> = zones.iter().map(|z| z.0).collect();
+    for _ in 0..n_items {
+        let z = src.draw(2) as usize % zones.len();
+        let gap_kind = src.pick_w(3, 2);
+        let gap_val = src.draw(20000);
+        let kind = src.alt_silent(1, &["bfchar", "bfrange-string-form", "bfrange-array-form"]);
+        let crossing = src.alt_silent(6, &["", "range-crosses-first-byte"]) == 1;
+        let len_kind = src.pick_w(3, 1);
+        let len_val = src.draw(256);
+        let (tseed, multi, supp) = text_switches(src);
+        let okey = src.draw(1000); // position of the entry in the text = rank of this key (ties: ascending codes)
+        pad(src, 16);
+        let (_, zhi, w) = zones[z];
+        let gap = match gap_kind { 0 => gap_val % 3, 1 => gap_val % 200, _ => gap_val % if w == 1 { 60 } else { 20000 } };
+        let start = cursors[z] + gap;
+        if start > zhi { continue; }
+        keys.push(okey);
+        if kind == 0 {
+            let dst = hash_text(tseed, 0, multi, supp);
+            want.insert(start as u16, dst.clone());
+            items.push(Item::Char { code: start, w, dst });
+            cursors[z] = start + 1;
+            continue;
+        }
+        // §9.10.3 examples and TN 5014 keep a range inside one value of the first byte; ranges that cross are a labelled extra
+        let crossing = w == 2 && crossing;
+        let room_byte = if w == 2 && !crossing { 0x100 - (start & 0xFF) } else { zhi - start + 1 };
+        let mut maxlen = room_byte.min(zhi - start + 1);
+        if kind == 1 {
+            let dst = utf16be_bytes(&hash_text(tseed, 0, multi, supp));
+            maxlen = maxlen.min(256 - *dst.last().unwrap() as u32);
+            let len = (1 + match len_kind { 0 => len_val % 8, _ => len_val }).min(maxlen).max(1);
+            for k in 0..len {
+                let mut d = dst.clone();
+                *d.last_mut().unwrap() += k as u8;
+                match reference::utf16be(&d) { Ok(s) => { want.insert((start + k) as u16, s); } Err(e) => {
+                    return Eval { verdict: Verdict::Inconclusive(format!("generator produced an invalid range destination: {}", e)), labels: label_str(src), hash: 0, nontrivial: false, feats: vec![], witness: json!(null) } } }
+            }
+            items.push(Item::RangeStr { lo: start, hi: start + len - 1, w, dst });
+            cursors[z] = start + len;
+        } else {
+            let len = (1 + match len_kind { 0 => len_val % 5, _ => len_val % 60 }).min(maxlen).max(1);
+            let dsts: Vec<String> = (0..len).map(|k| hash_text(tseed, k, multi, supp)).collect();
+            for (k, d) in dsts.iter().enumerate() { want.insert((start + k as u32) as u16, d.clone()); }
+            items.push(Item::RangeArr { lo: start, hi: start + len - 1, w, dsts });
+            cursors[z] = start + len;
+        }
+    }
+    // labels describe the case as generated
+    if items.iter().any(|i| matches!(i, Item::RangeStr { .. })) { src.label("bfrange-string-form"); }
+    if items.iter().any(|i| matches!(i, Item::RangeArr { .. })) { src.label("bfrange-array-form"); }
+    if items.iter().any(|i| match i { Item::RangeStr { lo, hi, .. } | Item::RangeArr { lo, hi, .. } => lo >> 8 != hi >> 8, _ => false }) { src.label("range-crosses-first-byte"); }
+    text_labels(src, &want);
+    // order of the entries and of the sections: any (draws 0 = ascending codes)
+    if shuffle && items.len() > 1 {
+        let mut ix: Vec<usize> = (0..items.len()).collect();
+        ix.sort_by_key(|i| keys[*i]);
+        items = ix.into_iter().map(|i| items[i].clone()).collect();
+        let first = |i: &Item| match i { Item::Char { code, .. } => *code, Item::RangeStr { lo, .. } | Item::RangeArr { lo, .. } => *lo };
+        if items.windows(2).any(|p| first(&p[0]) > first(&p[1])) { src.label("shuffled-entries"); }
+    }
+    // blocks: maximal runs of the same kind, cut at 100 entries and at random places
+    let mut blocks: Vec<Vec<Item>> = Vec::new();
+    for it in items.iter() {
+        let cut = match blocks.last() { None => true, Some(b) => b[0].is_char() != it.is_char() || b.len() >= 100 || (f.density > 0 && f.coin(12)) };
+        if cut { blocks.push(vec![it.clone()]); } else { blocks.last_mut().unwrap().push(it.clone()); }
+    }
+    let e = f.eol;
+    let mut t = String::new();
+    let comment = |t: &mut String, f: &Fmt, at_line_start: bool| {
+        if f.comments == 0 || !f.coin(4) { return; }
+        let c = if f.comments == 2 && f.coin(2) { KEYWORD_COMMENTS[f.index(4)] } else { COMMENTS[f.index(4)] };
+        if !at_line_start { t.push(' '); }
+        t.push_str(c); t.push_str(f.eol);
+    };
+    t.push_str(&format!("/CIDInit /ProcSet findresource begin{e}12 dict begin{e}begincmap{e}"));
+    comment(&mut t, &f, true);
+    t.push_str(&format!("/CIDSystemInfo{e}<< /Registry (Adobe){e}/Ordering (UCS){e}/Supplement 0{e}>> def{e}/CMapName /Adobe-Identity-UCS def{e}/CMapType 2 def{e}"));
+    t.push_str(&format!("{} begincodespacerange{e}", zones.len()));
+    for (lo, hi, w) in &zones { let a = hexstr(&f, &code_bytes(*lo, *w)); let b = hexstr(&f, &code_bytes(*hi, *w)); t.push_str(&format!("{}{}{}{e}", a, f.sep, b)); }
+    t.push_str(&format!("endcodespacerange{e}"));
+    let mut feats: Vec<String> = Vec::new();
+    for b in &blocks {
+        comment(&mut t, &f, true);
+        t.push_str(&format!("{}{}{}{e}", b.len(), f.sep, if b[0].is_char() { "beginbfchar" } else { "beginbfrange" }));
+        for (k, it) in b.iter().enumerate() {
+            let sep = if f.tight { "" } else { f.sep };
+            match it {
+                Item::Char { code, w, dst } => {
+                    let a = hexstr(&f, &code_bytes(*code, *w)); let d = hexstr(&f, &utf16be_bytes(dst));
+                    t.push_str(&format!("{}{}{}", a, sep, d)); feats.push("entries:bfchar".into());
+                }
+                Item::RangeStr { lo, hi, w, dst } => {
+                    let a = hexstr(&f, &code_bytes(*lo, *w)); let h = hexstr(&f, &code_bytes(*hi, *w)); let d = hexstr(&f, dst);
+                    t.push_str(&format!("{}{}{}{}{}", a, sep, h, sep, d)); feats.push("entries:bfrange-string".into());
+                }
+                Item::RangeArr { lo, hi, w, dsts } => {
+                    let a = hexstr(&f, &code_bytes(*lo, *w)); let h = hexstr(&f, &code_bytes(*hi, *w));
+                    t.push_str(&format!("{}{}{}{}[", a, sep, h, sep));
+                    for (i, d) in dsts.iter().enumerate() { if i > 0 { t.push_str(sep); } let d = hexstr(&f, &utf16be_bytes(d)); t.push_str(&d); }
+                    t.push(']'); feats.push("entries:bfrange-array".into());
+                }
+            }
+            if f.share_line && k + 1 < b.len() && f.coin(2) { t.push_str(if f.sep == "\x0c" { " " } else { f.sep }); }
+            else if f.comments > 0 && f.coin(6) { comment(&mut t, &f, false); if !t.ends_with(e) { t.push_str(e); } }
+            else { t.push_str(e); }
+        }
+        t.push_str(&format!("{}{e}", if b[0].is_char() { "endbfchar" } else { "endbfrange" }));
+    }
+    comment(&mut t, &f, true);
+    t.push_str(&format!("endcmap{e}CMapName currentdict /CMap defineresource pop{e}end{e}end{e}"));
+    // labels of formatting features that did not materialise are dropped
+    if !t.contains('%') { src.s.labels.retain(|l| *l != "comments" && *l != "comments-with-keywords"); }
+    else if !KEYWORD_COMMENTS.iter().any(|k| t.contains(k)) { for l in src.s.labels.iter_mut() { if *l == "comments-with-keywords" { *l = "comments"; } } }
+
+    let labels = label_str(src);
+    let witness = json!({"cmap_text": show(t.as_bytes()), "entries": want.len(), "blocks": blocks.len()});
+    let hash = fnv(t.as_bytes());
+    let mk = |verdict: Verdict, feats: Vec<String>| Eval { verdict, labels: labels.clone(), hash, nontrivial: !want.is_empty(), feats, witness: witness.clone() };
+    // conformance + meaning according to the independent reader must equal the generator's bookkeeping
+    match reference::parse_tounicode(t.as_bytes()) {
+        Err(e) => return mk(Verdict::Inconclusive(format!("generated CMap rejected by the reference reader: {}", e)), feats),
+        Ok(info) => if info.map != want { return mk(Verdict::Inconclusive("generator bookkeeping and reference reader disagree".into()), feats); }
+    }
+    feats.push(format!("codes:{}", ["two-byte", "one-byte", "mixed"][mode]));
+    let verdict = judge_text(t.as_bytes(), &want, idx, &mut feats);
+    mk(verdict, feats)
+}
+// ---------------------------------------------------------------------------------------------
+// self-test of the monitor's own machinery (hand-verified examples, doctored answers must fire)
+// ---------------------------------------------------------------------------------------------
+
+fn selftest() -> Result<(), String> {
+    // /W [1 [500 600] 10 12 250 5 [0.5]]
+    let w = arr(vec![Obj::Int(1), arr(vec![Obj::Int(500), Obj::Int(600)]), Obj::Int(10), Obj::Int(12), Obj::Int(250), Obj::Int(5), arr(vec![Obj::Real(0.5)])]);
+    let m = reference::interpret_w(&w, &|_| None)?;
+    let want: [(usize, Option<f64>); 9] = [(0, None), (1, Some(500.)), (2, Some(600.)), (3, None), (5, Some(0.5)), (9, None), (10, Some(250.)), (12, Some(250.)), (13, None)];
+    for (c, v) in want { if m[c] != v { return Err(format!("reference /W interpreter wrong at code {}", c)); } }
+    if reference::interpret_w(&arr(vec![Obj::Int(1), arr(vec![Obj::Int(5)]), Obj::Int(0), Obj::Int(3), Obj::Int(7)]), &|_| None).is_ok() { return Err("overlap not rejected".into()); }
+    if reference::interpret_w(&arr(vec![Obj::Int(1), arr(vec![])]), &|_| None).is_ok() { return Err("empty group not rejected".into()); }
+    // judge_widths must accept the right table and flag doctored ones
+    let model: Vec<f32> = (0..65536).map(|c| m[c].map(|v| v as f32).unwrap_or(1000.)).collect();
+    let assigned: Vec<bool> = m.iter().map(|v| v.is_some()).collect();
+    let extra = vec![1000f32; EXTRA_CODES.len()];
+    if judge_widths(&Got::Table(model.clone(), extra.clone()), &model, &assigned, 1000., "t") != Ok(None) { return Err("judge_widths rejects the right table".into()); }
+    let mut shifted = model.clone(); shifted.rotate_right(1);
+    if !matches!(judge_widths(&Got::Table(shifted, extra.clone()), &model, &assigned, 1000., "t"), Ok(Some((ref c, _))) if c == "wrong-width-for-assigned-code") { return Err("judge_widths misses a shifted table".into()); }
+    let mut nodef = model.clone(); for c in 0..65536 { if !assigned[c] { nodef[c] = 0.0; } }
+    if !matches!(judge_widths(&Got::Table(nodef, extra.clone()), &model, &assigned, 1000., "t"), Ok(Some((ref c, _))) if c == "wrong-width-for-unassigned-code") { return Err("judge_widths misses a wrong default".into()); }
+    let mut bad_extra = extra.clone(); bad_extra[5] = 0.0;
+    if judge_widths(&Got::Table(model.clone(), bad_extra), &model, &assigned, 1000., "t") == Ok(None) { return Err("judge_widths misses a wrong far code".into()); }
+    // CMap reader on the example of PDF 32000-1 §9.10.3
+    let txt = b"/CIDInit /ProcSet findresource begin\n12 dict begin\nbegincmap\n/CIDSystemInfo\n<< /Registry (Adobe)\n/Ordering (UCS)\n/Supplement 0\n>> def\n/CMapName /Adobe-Identity-UCS def\n/CMapType 2 def\n1 begincodespacerange\n<0000> <FFFF>\nendcodespacerange\n2 beginbfrange\n<0000> <005E> <0020>\n<005F> <0061> [<00660066> <00660069> <00660066006C>]\nendbfrange\n1 beginbfchar\n<3A51> <D840DC3E>\nendbfchar\nendcmap\nCMapName currentdict /CMap defineresource pop\nend\nend\n";
+    let info = reference::parse_tounicode(txt)?;
+    let mut hand: BTreeMap<u16, String> = (0u16..=0x5E).map(|c| (c, char::from_u32(0x20 + c as u32).unwrap().to_string())).collect();
+    hand.insert(0x5F, "ff".into()); hand.insert(0x60, "fi".into()); hand.insert(0x61, "ffl".into()); hand.insert(0x3A51, "\u{2003E}".into());
+    if info.map != hand { return Err("reference CMap reader wrong on the specification's example".into()); }
+    if reference::parse_tounicode(&String::from_utf8_lossy(txt).replace("<005E> <0020>", "<005E> <00F0>").into_bytes()).is_ok() { return Err("overflowing range not rejected".into()); }
+    if reference::parse_tounicode(&String::from_utf8_lossy(txt).replace("2 beginbfrange", "3 beginbfrange").into_bytes()).is_ok() { return Err("wrong count not rejected".into()); }
+    // judge_map
+    if judge_map(&Read::Map(hand.clone()), &hand, "t") != Ok(None) { return Err("judge_map rejects the right map".into()); }
+    let mut d = hand.clone(); d.remove(&0x60);
+    if !matches!(judge_map(&Read::Map(d), &hand, "t"), Ok(Some((ref c, _))) if c == "missing-entries") { return Err("judge_map misses a missing entry".into()); }
+    let mut d = hand.clone(); d.insert(0x60, "if".into());
+    if !matches!(judge_map(&Read::Map(d), &hand, "t"), Ok(Some((ref c, _))) if c == "wrong-text") { return Err("judge_map misses a wrong text".into()); }
+    let mut d = hand.clone(); d.insert(0x7000, "x".into());
+    if !matches!(judge_map(&Read::Map(d), &hand, "t"), Ok(Some((ref c, _))) if c == "extra-entries") { return Err("judge_map misses an extra entry".into()); }
+    Ok(())
+}
+
+pub fn run(run: &Run) {
+    run.rule("tape-generated cases, 4 parts. (a) CID fonts: /W = random permutation of disjoint non-empty groups (list form c [w…] and range form c1 c2 w, codes 0..65535, group sizes 1..65536, integer and real widths 0..3000), /DW given or absent, /W and list sub-arrays direct or indirect, CIDFontType0/2, queried through the Type0 font of a generated document read by the real reader (all four configurations) and through fonts built from public struct fields; oracle: Widths::get(c) for EVERY c in 0..=65535 plus 65536, 65537, 70000, 2^20, u32::MAX, usize::MAX equals array value / default. (b) simple fonts Type1/TrueType: FirstChar 0..255, Widths length 0..300, LastChar consistent, optional FontDescriptor with/without MissingWidth; oracle for every code 0..=1023 + far codes: table entry inside, MissingWidth (default 0) outside. (c) maps u16→non-empty Unicode strings (BMP, supplementary planes, multi-character; isolated codes and runs of consecutive codes) → write_cmap → Font::to_unicode (Stream::new and via a document stream, plain or Flate); oracle: same map. (d) conformant ToUnicode CMap texts (codespacerange, counted bfchar/bfrange blocks ≤100, string-form ranges without last-byte overflow, array-form ranges, 1-/2-byte/mixed codes, surrogate pairs, multi-char targets, comments, any entry/section order, EOL LF/CRLF/CR, hex case/inner white space); oracle: map per specification (independent strict reader, must agree with the generator's bookkeeping). distinct_nontrivial = distinct non-empty cases per part (hash of the case content). Widths inside a list group and texts inside an entry are a hash of one seed draw. Failing cases are minimised on the real code (label knock-out + tape shrinking); signature = part | labels of the minimised case | outcome class.");
+    run.assume("reference /W interpreter and CMap reader in harness/src/refimpl/c19_ref.rs implement PDF 32000-1 §9.7.4.3 / §9.10.3 (self-tested on hand-verified examples at start-up)");
+    run.assume("real widths are compared with a tolerance of 4e-7 relative (decimal text → f32)");
+    run.assume("Font::widths returning Ok(None) for a Type1/TrueType font that has FirstChar and Widths counts as a failure; MMType1/Type3 are outside the generated domain");
+    if let Err(e) = selftest() { run.inconclusive(format!("C19 self-test failed: {}", e)); return; }
+    run.count("selftest:passed");
+    let n_fonts = run.n(3000, 300_000);
+    let n_maps = run.n(3000, 300_000);
+    drive(run, "a", 1, n_fonts * 2 / 3, &case_a);
+    drive(run, "b", 2, n_fonts - n_fonts * 2 / 3, &case_b);
+    drive(run, "c", 3, n_maps / 2, &case_c);
+    drive(run, "d", 4, n_maps - n_maps / 2, &case_d);
+}
